@@ -181,3 +181,19 @@ package lnwallet
 //@        arg(pd).ParentIndex == ret(lookupHtlc).HtlcIndex && arg(pd).RHash == ret(lookupHtlc).RHash
 //@   site call markHtlcModified: assert arg(0) == lc.updateLogs.Local && arg(i) == htlcIndex && called(appendUpdate)
 //@   site return nil: assert called(appendUpdate) && called(markHtlcModified)
+//@
+//@ func (lc *LightningChannel) ProcessChanSyncMsg
+//@   props C06 C03
+//@   loop * havoc
+//@   site call tail nth 0: assert arg(0) == lc.commitChains.Local
+//@   site call tail nth 1: assert arg(0) == lc.commitChains.Remote
+//@   site call tip: assert arg(0) == lc.commitChains.Remote && localTailHeight == ret(tail, 0).height &&
+//@        remoteTailHeight == ret(tail, 1).height
+//@   site alloc ErrCommitSyncLocalDataLoss: assert msg.RemoteCommitTailHeight > localTailHeight || isRestoredChan
+//@   site call generateRevocation: assert wrap(msg.RemoteCommitTailHeight + 1, 64) == localTailHeight &&
+//@        msg.RemoteCommitTailHeight < localTailHeight && arg(height) == localTailHeight - 1 && !isRestoredChan
+//@   site call SignNextCommitment: assert retn(generateRevocation, 1) == nil && ret(OweCommitment)
+//@   site call RemoteCommitChainTip: assert msg.NextLocalCommitHeight == remoteTipHeight &&
+//@        msg.NextLocalCommitHeight > remoteTailHeight
+//@   site call AtIndex: assert arg(1) == msg.RemoteCommitTailHeight - 1 && msg.RemoteCommitTailHeight != 0
+//@   site call bytes.Equal: assert arg(0) == sliceof(*retn(AtIndex, 0)) && arg(1) == sliceof(msg.LastRemoteCommitSecret)
